@@ -13,7 +13,7 @@
 From Coq Require Import ZArith List Bool.
 Local Ltac c02_scan0 := idtac. (* separates the Require lines for the dependency scanner of lib/vv.py *)
 From VV Require Import Base.F64 Base.Values Interp.Strategy Mep.Genome Mep.Draws Mep.OpsDefs
-  Mep.OpsProofs Mep.CseProofs Mep.ClosureProofs.
+  Fitness.F64Order Mep.OpsProofs Mep.CseProofs Mep.ClosureProofs Mep.FuelProofs.
 Local Ltac c02_scan1 := idtac.
 Import ListNotations.
 
@@ -97,12 +97,27 @@ Print Assumptions C02_destroy_block_wf.
 (* cse() with the repaired comparator, for every well-formed individual (its
    ephemeral constants are numbers: part of ind_ok_b, established by the
    constructors from the contract of random::between<double>) *)
-Theorem C02_cse_wf : forall ss patch i i',
-  wf_sset_b ss = true -> ind_ok_b ss patch (i_gen i) = true ->
-  cse i = Some i' ->
+Theorem C02_cse_wf : forall ss, wf_sset_b ss = true -> forall patch i i',
+  ind_ok_b ss patch (i_gen i) = true -> cse i = Some i' ->
   ind_ok_b ss patch (i_gen i') = true /\ i_age i' = i_age i /\ i_xt i' = i_xt i.
 Proof. exact cse_wf. Qed.
 Print Assumptions C02_cse_wf.
+
+(* ... and it always returns a result (no stuck lookup, no missing cell) *)
+Theorem C02_cse_total : forall ss, wf_sset_b ss = true -> forall patch i,
+  ind_ok_b ss patch (i_gen i) = true -> exists i', cse i = Some i'.
+Proof. exact cse_total. Qed.
+Print Assumptions C02_cse_total.
+
+(* the repaired gene_cmp is a strict weak ordering on the genes of well-formed
+   individuals (symbols of the symbol set, constants that are numbers):
+   irreflexive, and "neither is less" is transitive *)
+Theorem C02_gene_cmp_repaired_strict_weak_order : forall ss, wf_sset_b ss = true ->
+  (forall k, K (K0n ss) k -> gene_cmp k k = false) /\
+  (forall a b c, K (K0n ss) a -> K (K0n ss) b -> K (K0n ss) c ->
+     gene_equiv gene_cmp a b = true -> gene_equiv gene_cmp b c = true -> gene_equiv gene_cmp a c = true).
+Proof. exact gene_cmp_swo. Qed.
+Print Assumptions C02_gene_cmp_repaired_strict_weak_order.
 
 (* ---- closure: every individual reachable from randomly created ones by
    any finite sequence of operators, for every draw stream, is well-formed *)
@@ -121,6 +136,41 @@ Theorem C02_reachable_exec_safe : forall ss R patch, wf_sset_b ss = true -> fora
   reachable ss R patch i -> active_tree (i_gen i) <> None.
 Proof. exact reachable_exec_safe. Qed.
 Print Assumptions C02_reachable_exec_safe.
+
+(* ---- the begin()/end() walk, active_symbols() and blocks() of a well-formed
+   individual are defined within the fuel and never leave the genome *)
+Theorem C02_iterator_walk_stays_inside : forall ss, wf_sset_b ss = true -> forall patch g,
+  ind_ok_b ss patch g = true -> exists w, active_loci g = Some w /\ Forall (inside g) w.
+Proof. exact active_loci_total. Qed.
+Print Assumptions C02_iterator_walk_stays_inside.
+
+Theorem C02_blocks_are_active_functions : forall ss, wf_sset_b ss = true -> forall patch g,
+  ind_ok_b ss patch g = true ->
+  exists b, blocks g = Some b /\ Forall (inside g) b /\
+            Forall (fun l => exists ge, gene_at g l = Some ge /\ is_terminal (g_sym ge) = false) b.
+Proof. exact blocks_total. Qed.
+Print Assumptions C02_blocks_are_active_functions.
+
+(* ---- fuel: the loops of the model never run out of it on well-formed input,
+   so an operator returns no result only when the draw stream does not fit *)
+Theorem C02_mutation_fuel_irrelevant : forall ss, wf_sset_b ss = true -> forall patch pgm i ds fuel,
+  ind_ok_b ss patch (i_gen i) = true -> (S (rows (i_gen i) * cats (i_gen i)) <= fuel)%nat ->
+  mut_loop fuel ss patch pgm (i_gen i) [best (i_gen i)] 0 ds =
+  mut_loop (S (rows (i_gen i) * cats (i_gen i))) ss patch pgm (i_gen i) [best (i_gen i)] 0 ds.
+Proof. exact mutation_fuel_irrelevant. Qed.
+Print Assumptions C02_mutation_fuel_irrelevant.
+
+Theorem C02_tree_crossover_copy_total : forall ss, wf_sset_b ss = true -> forall patch from,
+  ind_ok_b ss patch from = true -> forall fuel to l,
+  inside from l -> (rows from - l_index l <= fuel)%nat -> exists t, copy_tree fuel from to l = Some t.
+Proof. exact copy_tree_total. Qed.
+Print Assumptions C02_tree_crossover_copy_total.
+
+Theorem C02_random_locus_exons_total : forall ss, wf_sset_b ss = true -> forall patch g,
+  ind_ok_b ss patch g = true ->
+  exists ex, exons_loop (S (rows g * cats g)) g [best g] (best g) = Some ex /\ ex <> [] /\ Forall (inside g) ex.
+Proof. exact random_locus_exons. Qed.
+Print Assumptions C02_random_locus_exons_total.
 
 (* the property's well-formedness implies the shared one of Mep/Genome.v *)
 Theorem C02_ind_ok_implies_wf_genome : forall ss patch g, ind_ok_b ss patch g = true -> wf_genome_b g = true.
@@ -203,7 +253,11 @@ Example C02_ex_operators_defined :
       | _ => false
       end &&
       is_some (destroy_block ex_ss i 0 [DInt 0 100 0; DInt 0 100 0; DInt (-100) 100 1]%Z) &&
-      is_some (cse i)
+      is_some (cse i) &&
+      match active_loci (i_gen i), blocks (i_gen i) with
+      | Some w, Some b => Nat.eqb (length w) 3 && Nat.eqb (length b) 1
+      | _, _ => false
+      end
   | None => false
   end = true.
 Proof. vm_compute. reflexivity. Qed.
